@@ -269,3 +269,13 @@ _run0 = run
 def run(ctx, rep, tier):
     _run0(ctx, rep, tier)
     _shared(ctx, rep, tier)
+
+
+_run_d05 = run
+
+
+def run(ctx, rep, tier):
+    _run_d05(ctx, rep, tier)
+    from .shared import delegate
+    delegate(ctx, rep, tier, "C02", ("C02.g",), "C06.l", "nested action templates are generated with the context of the enclosing transition (a redirect inside them re-dispatches instead of returning)")
+    delegate(ctx, rep, tier, "C05", ("C05.d",), "C06.k", "what an action may do to the target (override mode / targets, for every branch of a conditional action) is what the emitted control transfer relies on")
